@@ -159,6 +159,7 @@ theorem inv_applyBegin {st : St} (hr : st.phase = .running) (hwg : st.walGone = 
 @[simp] theorem addNames_gcLow (st : St) (m t : Nat) : (addNames st m t).gcLow = st.gcLow := by unfold addNames; split <;> rfl
 @[simp] theorem addNames_consumed (st : St) (m t : Nat) : (addNames st m t).consumed = st.consumed := by unfold addNames; split <;> rfl
 @[simp] theorem addNames_groupAck (st : St) (m t : Nat) : (addNames st m t).groupAck = st.groupAck := by unfold addNames; split <;> rfl
+@[simp] theorem addNames_walGone (st : St) (m t : Nat) : (addNames st m t).walGone = st.walGone := by unfold addNames; split <;> rfl
 @[simp] theorem addNames_files (st : St) (m t : Nat) : (addNames st m t).files = st.files := by unfold addNames; split <;> rfl
 @[simp] theorem addNames_stored (st : St) (m t : Nat) : (addNames st m t).stored = st.stored := by unfold addNames; split <;> rfl
 @[simp] theorem addNames_phase (st : St) (m t : Nat) : (addNames st m t).phase = st.phase := by unfold addNames; split <;> rfl
